@@ -40,6 +40,7 @@ def run(chk):
     chk.rule("R15.1", "inverse_mod (every build variant): result is 0 or proven in [0, m-1]; Euclid variants agree")
     chk.rule("R15.2", "square_root_mod_prime: result range, guard order, exact exponent divisions per residue class")
     chk.rule("R15.3", "jacobi: preconditions, recursion arguments, sign tables")
+    chk.rule("R15.4", "exact integer arithmetic: no float operation in inverse_mod / jacobi / square_root_mod_prime / polynomial helpers")
     cfgs = ["py3", "py3-old", "gmpy2", "gmpy"]      # the sibling rule needs all variants in both tiers
     chk.configs = cfgs
     a, mm = Lin.sym(("param", "a")), Lin.sym(("param", "m"))
@@ -168,6 +169,19 @@ def run(chk):
     pb = [x for fn_ in owned_nodes for x in ast.walk(fn_) if isinstance(x, ast.Call) and norm_text(x.func) == "polynomial_exp_mod"]
     okpb = len(pb) == 1 and norm_text(pb[0].args[1]) in ("(%s + 1) // 2" % pn,)
     chk.ob("R15.2", "polynomial branch raises x to (p + 1) // 2", okpb, loc=q, key="C15|R15.2|poly-exp", detail="exponent of the polynomial branch is %s" % (norm_text(pb[0].args[1]) if pb else None))
+
+    # ---------------- R15.4 exact integer arithmetic only
+    nfun = 0
+    for fq_ in ("inverse_mod", "jacobi", "square_root_mod_prime", "polynomial_reduce_mod", "polynomial_multiply_mod", "polynomial_exp_mod"):
+        fns = [W.p.func("numbertheory:" + fq_)] + [W.p.func(h_) for h_, o_ in W.owners.items() if o_ == "numbertheory:" + fq_]
+        for fn_ in fns:
+            nfun += 1
+            flo = [norm_text(x)[:50] for x in ast.walk(fn_.node) if (isinstance(x, ast.BinOp) and isinstance(x.op, ast.Div)) or (isinstance(x, ast.AugAssign) and isinstance(x.op, ast.Div))
+                   or (isinstance(x, ast.Call) and norm_text(x.func) in ("float", "math.floor", "math.ceil", "math.sqrt", "math.log", "math.pow", "round", "math.trunc"))
+                   or (isinstance(x, ast.Constant) and isinstance(x.value, float))]
+            chk.ob("R15.4", "%s: integer arithmetic only (no true division, float constants or math.* rounding)" % fn_.qual, not flo, loc=fn_.qname, key="C15|R15.4|%s" % fn_.qual,
+                   detail="%s computes with floating point (%s): exponents / quotients lose precision beyond 2**53" % (fn_.qual, flo[:3]))
+    chk.floor("R15.4", "number-theory functions examined for float arithmetic", nfun, 6)
 
     # ---------------- R15.3
     jq = "numbertheory:jacobi"
